@@ -1,8 +1,8 @@
-"""C11 — differential test of the TRANSLATED functions of this property: variable groups (cnfgen/formula/variables.py).
+"""C04 — differential test of the TRANSLATED functions of this property: normalize_opb (cnfgen/formula/baseopb.py).
 See harness/genfuncs.py (what is tested and why) and notes/translator.md."""
 from harness import genfuncs
 
-PROP = "C11"
+PROP = "C04"
 RULE = genfuncs.RULE
 TRUSTED_EXTRA = genfuncs.TRUSTED_EXTRA
 NOTES = []
